@@ -350,6 +350,50 @@ class Lookup(Harness):
         yield 'name-in-the-table-is-not-reported-unknown', not obs['unknown_section']
 
 
+class LookupTwoCats(Harness):
+    """a name that lives in TWO categories of the table (as 'none' or the AEAD names do), with different symbolic rows: --lookup prints each category's
+    entry with that category's notes - what a scan shows for the name in that category."""
+    prop, ob = PROP, 'O3'
+    width = 64
+
+    def __init__(self, c1, c2, listed):
+        self.c1, self.c2, self.listed = c1, c2, listed
+        self.name = 'lookup2-%s+%s%s' % (c1, c2, '-listed' if listed else '')
+
+    def params(self):
+        return {'c1': self.c1, 'c2': self.c2, 'listed': self.listed}
+
+    def inputs(self):
+        r1, n1 = sym_row('ossh', 1, 1, 0)
+        r2 = [list(VERSIONS['both']), [zx.fresh_str('g0', 1, PRINT)], [], [zx.fresh_str('g1', 1, PRINT)]]
+        n2 = {'fail': [r2[1][0]], 'warn': [], 'info': [r2[3][0]]}
+        return {'r1': r1, 'n1': n1, 'r2': r2, 'n2': n2}
+
+    def run(self, M, inp):
+        from zx.instrument import zx_si
+        r1 = [list(x) for x in inp['r1']]
+        r2 = [list(x) for x in inp['r2']]
+
+        def edit(d2, d1):
+            zx_si(d2[self.c1], ROWNAME, r1)
+            zx_si(d2[self.c2], ROWNAME, r2)
+        OL.fresh_tables(M, edit)
+        out = M.outputbuffer.OutputBuffer()
+        out.use_colors = False
+        r = guarded(M.ssh_audit.algorithm_lookup, out, ('ssh-ed25519,' + ROWNAME + ',hmac-md5') if self.listed else ROWNAME)
+        if isinstance(r, Exc):
+            return {'exc': r}
+        parsed = OL.parse_alg_lines(out.buffer)
+        return {'ret': r, 'by_cat': {c: [(lvl, text) for cat, head, lvl, text in parsed if cat == c and bool(head == ROWNAME)] for c in (self.c1, self.c2)}}
+
+    def check(self, inp, obs):
+        if 'exc' in obs:
+            yield 'no-exception', False
+            return
+        yield 'lookup-notes==row-in-first-category', notes_equal(obs['by_cat'][self.c1], expected_notes('ossh', inp['n1']))
+        yield 'lookup-notes==row-in-second-category', notes_equal(obs['by_cat'][self.c2], expected_notes('both', inp['n2']))
+
+
 class Context(Harness):
     """a table-known name in a full report: its notes do not depend on position, neighbours (symbolic names), role or flags."""
     prop, ob = PROP, 'O6'
@@ -452,6 +496,9 @@ def tasks(tier):
             T.append(RowText(cat, 'ossh', nf, nw, ni, 30))
             T.append(Lookup(cat, 'ossh', nf, nw, ni))
         T.append(Lookup(cat, 'ossh', 1, 1, 0, 2))
+    for c1, c2 in (('enc', 'mac'), ('kex', 'key'), ('key', 'mac'), ('kex', 'enc')):
+        for listed in (False, True):
+            T.append(LookupTwoCats(c1, c2, listed))
         T.append(Lookup(cat, 'both', 0, 1, 1, 1 if q else 3, True))
     for cat in OL.CATS:
         for n in ((1, 2) if q else (1, 2, 3)):
@@ -481,6 +528,8 @@ def harness_by_name(name, params):
         return RowJson(p['cat'], p['ver'], p['nf'], p['nw'], p['ni'])
     if k == 'lookup':
         return Lookup(p['cat'], p['ver'], p['nf'], p['nw'], p['ni'], p.get('symname', 0), p.get('second', False))
+    if k == 'lookup2':
+        return LookupTwoCats(p['c1'], p['c2'], p['listed'])
     if k == 'unknown':
         return Unknown(p['cat'], p['n'], p['pre'], p['suf'])
     if k == 'gss':
